@@ -158,7 +158,7 @@ def degenerate_case(rng, *, hermitian=True, fmt="dense", pattern=(1, 0, 0), max_
     return dict(sub=sub, nparam=nparam, N=N, H=H, hermitian=hermitian, fully=(None if default_full else [0]), fmt=fmt)
 
 
-NSPECIAL = 16
+NSPECIAL = 18
 
 
 def special_case(rng, k, *, hermitian=True, N=3, max_params=2):
@@ -181,6 +181,10 @@ def special_case(rng, k, *, hermitian=True, N=3, max_params=2):
         return degenerate_case(rng, hermitian=hermitian, fmt="dense", pattern=(0, 1, 0), max_params=max_params, N=N, extra_block=True)
     if k == 7:
         return degenerate_case(rng, hermitian=hermitian, fmt="sympy", pattern=(1, 0, 1, 0), max_params=1, N=N, default_full=True)
+    if k == 16:
+        return scaled_case(rng, hermitian=hermitian, N=N, max_params=max_params, power=-30)
+    if k == 17:
+        return scaled_case(rng, hermitian=hermitian, N=N, max_params=max_params, power=-27)
     if k == 12:
         return coupled_late_case(rng, hermitian=hermitian, fmt="dense", N=max(N, 4))
     if k == 13:
@@ -323,6 +327,21 @@ def random_case(rng, *, hermitian=True, fmt=None, max_blocks=3, max_size=3, max_
     if fmt == "sympy" and rng.random() < 0.3:
         case["present"] = "expr"   # given as ONE sympy Matrix in the perturbative symbols (Taylor path), see implrun.run
     return case
+
+
+def scaled_case(rng, *, hermitian=True, N=3, max_params=2, power=-30):
+    """An exact-float (dense or sparse) problem whose whole Hamiltonian is multiplied by 2**power: every entry is far
+    above the library's default atol = 1e-12 but below numpy's default absolute tolerance 1e-8 (exact arithmetic: the
+    factor is a power of two)."""
+    c = None
+    for _ in range(50):
+        c = random_case(rng, hermitian=hermitian, fmt=rng.choice(["dense", "sparse"]), max_blocks=3, max_size=2,
+                        max_params=max_params, N=N, offset_prob=0.0, allow_mask=True)
+        if len(c["sub"]) >= 2:
+            break
+    f = Fr(2) ** power
+    c["H"] = {k: gq.enc([[x * G(f) for x in row] for row in gq.dec(M)]) for k, M in c["H"].items()}
+    return c
 
 
 def coupled_late_case(rng, *, hermitian=True, fmt=None, N=4, expr=False):
